@@ -457,8 +457,10 @@ func genC29(g *gen) {
 	}
 	g.line("Definition gen_c29_mark_is_one_critical_section : bool := %s.", coqBool(atomic))
 	g.line("Definition gen_c29_mark_refreshes_seen_at_for_other_peer : bool := %s.", coqBool(refreshOtherPeer))
-	// cleanup(): what is passed to cleanupSleepCmdCache
+	// cleanup(): what is passed to cleanupSleepCmdCache: a variable that starts
+	// as expiry and is raised to 2*f.timestampWindow + <slack> when below it
 	floor2w := false
+	slack := int64(-1)
 	if fd := findFunc(ff, "Flooder", "cleanup"); fd != nil && fd.Body != nil {
 		arg := ""
 		for _, c := range callsIn(fd.Body) {
@@ -467,12 +469,38 @@ func genC29(g *gen) {
 			}
 		}
 		body := norm(src(fd.Body))
-		floor2w = arg != "" && arg != "expiry" &&
-			strings.Contains(body, arg+" := expiry") &&
-			strings.Contains(body, "minExpiry := 2 * f.timestampWindow; "+arg+" < minExpiry") &&
-			strings.Contains(body, arg+" = minExpiry")
+		env := map[string]int64{"time.Minute": 60e9, "time.Second": 1e9, "time.Hour": 3600e9, "time.Millisecond": 1e6}
+		ast.Inspect(fd.Body, func(x ast.Node) bool {
+			is, ok := x.(*ast.IfStmt)
+			if !ok || is.Init == nil {
+				return true
+			}
+			as, ok := is.Init.(*ast.AssignStmt)
+			if !ok || len(as.Lhs) != 1 || len(as.Rhs) != 1 || norm(src(as.Lhs[0])) != "minExpiry" {
+				return true
+			}
+			if norm(src(is.Cond)) != arg+" < minExpiry" || norm(src(is.Body)) != "{ "+arg+" = minExpiry }" {
+				return true
+			}
+			switch rhs := as.Rhs[0].(type) {
+			case *ast.BinaryExpr:
+				if rhs.Op == token.ADD && strings.ReplaceAll(src(rhs.X), " ", "") == "2*f.timestampWindow" {
+					if v, ok := durLit(rhs.Y, env); ok {
+						slack = v
+					}
+				} else if strings.ReplaceAll(src(rhs), " ", "") == "2*f.timestampWindow" {
+					slack = 0
+				}
+			}
+			return true
+		})
+		floor2w = arg != "" && arg != "expiry" && strings.Contains(body, arg+" := expiry") && slack >= 0
 	}
-	g.line("Definition gen_c29_sleep_cache_expiry_is_max_ttl_two_windows : bool := %s.", coqBool(floor2w))
+	if slack < 0 {
+		slack = 0
+	}
+	g.line("Definition gen_c29_sleep_cache_expiry_is_max_ttl_two_windows_plus_slack : bool := %s.", coqBool(floor2w))
+	g.line("Definition gen_c29_expiry_slack_ns : Z := %d%%Z.", slack)
 	// cleanupSleepCmdCache: strict test, size-based part
 	strict, sizePart := false, false
 	if fd := findFunc(ff, "Flooder", "cleanupSleepCmdCache"); fd != nil && fd.Body != nil {
